@@ -380,6 +380,78 @@ m("C08-spin-on-errors", "C08", [(CACHE,
   "\tfor {\n\t\tselect {\n\t\tcase event, ok := <-watch.Events:",
   "\tfor {\n\t\tselect {\n\t\tdefault:\n\t\t\tcontinue\n\t\tcase event, ok := <-watch.Events:")], "the watcher's loop no longer blocks: busy spin")
 
+# ---------------------------------------------------------------- C10
+LINUX = "pkg/cdi/spec_linux.go"
+m("C10-rename-before-close", "C10", [(SPEC,
+  "\t_, err = tmp.Write(data)\n\t_ = tmp.Close()\n\tif err != nil {\n\t\treturn fmt.Errorf(\"failed to write Spec file: %w\", err)\n\t}\n\n\terr = renameIn(dir, filepath.Base(tmp.Name()), filepath.Base(s.path), overwrite)\n",
+  "\t_, err = tmp.Write(data)\n\tif err != nil {\n\t\t_ = tmp.Close()\n\t\treturn fmt.Errorf(\"failed to write Spec file: %w\", err)\n\t}\n\n\terr = renameIn(dir, filepath.Base(tmp.Name()), filepath.Base(s.path), overwrite)\n\t_ = tmp.Close()\n")], "the file is published while still open (unflushed handle)")
+m("C10-tmp-no-suffix", "C10", [(SPEC,
+  "os.CreateTemp(dir, \"spec.*.tmp\")", "os.CreateTemp(dir, \"spec.yaml.*\")")], "temp name ends in the random part: spec.yaml.123456")
+m("C10-copy-then-remove", "C10", [(LINUX,
+  "\tdirFd := int(dirf.Fd())\n\terr = unix.Renameat2(dirFd, src, dirFd, dst, flags)\n\tif err != nil {\n\t\treturn fmt.Errorf(\"rename failed: %w\", err)\n\t}\n",
+  "\tdirFd := int(dirf.Fd())\n\tif overwrite {\n\t\t_ = unix.Unlinkat(dirFd, dst, 0)\n\t}\n\terr = unix.Renameat2(dirFd, src, dirFd, dst, flags)\n\tif err != nil {\n\t\treturn fmt.Errorf(\"rename failed: %w\", err)\n\t}\n")], "old file unlinked before the rename: a window with no file, and none at all after a crash")
+m("C10-backup-inplace", "C10", [(CACHE,
+  "\tspec, err = newSpec(raw, path, prio)\n\tif err != nil {\n\t\treturn err\n\t}\n\n\treturn spec.write(true)",
+  "\tspec, err = newSpec(raw, path, prio)\n\tif err != nil {\n\t\treturn err\n\t}\n\tif old, rerr := os.ReadFile(spec.GetPath()); rerr == nil {\n\t\t_ = os.WriteFile(spec.GetPath()+\".yaml\", old, 0o644)\n\t}\n\n\treturn spec.write(true)")], "a backup copy is written in place under a Spec extension")
+m("C10-rename-other-dir", "C10", [(SPEC,
+  "\terr = renameIn(dir, filepath.Base(tmp.Name()), filepath.Base(s.path), overwrite)",
+  "\terr = renameIn(filepath.Dir(dir), filepath.Join(filepath.Base(dir), filepath.Base(tmp.Name())), filepath.Join(filepath.Base(dir), filepath.Base(s.path)), overwrite)")], "rename addressed from the parent directory")
+b("benign-C10-keep-tmp-on-failure", ["C10"], [(SPEC,
+  "\tif err != nil {\n\t\t_ = os.Remove(tmp.Name())\n\t\terr = fmt.Errorf(\"failed to write Spec file: %w\", err)\n\t}",
+  "\tif err != nil {\n\t\terr = fmt.Errorf(\"failed to write Spec file: %w\", err)\n\t}")], "a left-over temp file is never loadable (extension)")
+b("benign-C10-close-error-checked", ["C10"], [(SPEC,
+  "\t_, err = tmp.Write(data)\n\t_ = tmp.Close()\n\tif err != nil {",
+  "\t_, err = tmp.Write(data)\n\tif cerr := tmp.Close(); err == nil {\n\t\terr = cerr\n\t}\n\tif err != nil {")], "close error propagated as well")
+
+# ---------------------------------------------------------------- C15
+m("C15-key-limit-64", "C15", [(ANNOT, "\tconst maxNameLen = 63\n", "\tconst maxNameLen = 64\n")], "64-character names accepted (Kubernetes limit is 63)")
+m("C15-no-slash-replace", "C15", [(ANNOT,
+  "\tname := pluginName + \"_\" + strings.ReplaceAll(deviceID, \"/\", \"_\")",
+  "\tname := pluginName + \"_\" + deviceID")], "'/' of the device id kept: the key gets a second '/'")
+m("C15-middle-slash-ok", "C15", [(ANNOT,
+  "\t\t\tcase c == '_' || c == '-' || c == '.':\n\t\t\tdefault:\n\t\t\t\treturn \"\", fmt.Errorf(\"invalid name %q, invalid character '%c'\",",
+  "\t\t\tcase c == '_' || c == '-' || c == '.' || c == '+':\n\t\t\tdefault:\n\t\t\t\treturn \"\", fmt.Errorf(\"invalid name %q, invalid character '%c'\",")], "'+' accepted inside the name part")
+m("C15-value-no-qualify", "C15", [(ANNOT,
+  "\t\tif _, _, _, err := parser.ParseQualifiedName(d); err != nil {\n\t\t\treturn \"\", err\n\t\t}\n", "\t\tif d == \"\" {\n\t\t\treturn \"\", errors.New(\"empty device\")\n\t\t}\n")], "unqualified device names get into the annotation value")
+m("C15-parse-skip-bad", "C15", [(ANNOT,
+  "\t\t\tif !parser.IsQualifiedName(d) {\n\t\t\t\treturn nil, nil, fmt.Errorf(\"invalid CDI device name %q\", d)\n\t\t\t}",
+  "\t\t\tif !parser.IsQualifiedName(d) {\n\t\t\t\tcontinue\n\t\t\t}")], "unqualified devices silently dropped when parsing")
+m("C15-parse-sep-semicolon", "C15", [(ANNOT,
+  "strings.Split(value, \",\")", "strings.Split(value, \";\")")], "parser splits on ';' while the writer joins with ','")
+m("C15-prefix-mismatch", "C15", [(ANNOT,
+  "\t\tif !strings.HasPrefix(key, AnnotationPrefix) {", "\t\tif !strings.HasPrefix(key, \"cdi.k8s.io\") {")], "keys like cdi.k8s.iox/... are taken for CDI keys")
+m("C15-store-on-used-key", "C15", [(ANNOT,
+  "\tif _, ok := annotations[key]; ok {\n\t\treturn annotations, fmt.Errorf(\"CDI annotation failed, key %q used\", key)\n\t}",
+  "\tif old, ok := annotations[key]; ok && old != \"\" {\n\t\treturn annotations, fmt.Errorf(\"CDI annotation failed, key %q used\", key)\n\t}")], "a used key with an empty value is overwritten")
+m("C15-make-map-early", "C15", [(ANNOT,
+  "\tkey, err := AnnotationKey(plugin, deviceID)\n\tif err != nil {\n\t\treturn annotations, fmt.Errorf(\"CDI annotation failed: %w\", err)\n\t}",
+  "\tif annotations == nil {\n\t\tannotations = make(map[string]string)\n\t}\n\tkey, err := AnnotationKey(plugin, deviceID)\n\tif err != nil {\n\t\treturn annotations, fmt.Errorf(\"CDI annotation failed: %w\", err)\n\t}")], "a nil map comes back as an empty non-nil map on failure (map not 'exactly as it was')")
+b("benign-C15-check-order", ["C15"], [(ANNOT,
+  "\tif pluginName == \"\" {\n\t\treturn \"\", errors.New(\"invalid plugin name, empty\")\n\t}\n\tif deviceID == \"\" {\n\t\treturn \"\", errors.New(\"invalid deviceID, empty\")\n\t}",
+  "\tif deviceID == \"\" {\n\t\treturn \"\", errors.New(\"invalid deviceID, empty\")\n\t}\n\tif pluginName == \"\" {\n\t\treturn \"\", errors.New(\"invalid plugin name, empty\")\n\t}")], "emptiness checks in the other order")
+
+# ---------------------------------------------------------------- C16
+m("C16-replace-first-only", "C16", [(SPEC,
+  "\ttransientID = strings.ReplaceAll(transientID, \"/\", \"_\")",
+  "\ttransientID = strings.Replace(transientID, \"/\", \"_\", 1)")], "only the first '/' of the transient id is replaced")
+m("C16-remove-json-sibling", "C16", [(CACHE,
+  "\terr = os.Remove(path)\n\tif err != nil && errors.Is(err, fs.ErrNotExist) {",
+  "\terr = os.Remove(path)\n\t_ = os.Remove(strings.TrimSuffix(path, filepath.Ext(path)) + \".json\")\n\tif err != nil && errors.Is(err, fs.ErrNotExist) {")], "RemoveSpec also deletes a .json sibling")
+m("C16-remove-swallow-all", "C16", [(CACHE,
+  "\tif err != nil && errors.Is(err, fs.ErrNotExist) {\n\t\terr = nil\n\t}",
+  "\tif err != nil && (errors.Is(err, fs.ErrNotExist) || errors.Is(err, fs.ErrPermission)) {\n\t\terr = nil\n\t}")], "permission errors are swallowed too")
+m("C16-write-no-overwrite", "C16", [(CACHE,
+  "\treturn spec.write(true)", "\treturn spec.write(false)")], "WriteSpec refuses to replace an existing file")
+m("C16-write-first-when-two", "C16", [(CACHE,
+  "\tprio := len(c.specDirs) - 1\n\tdir := c.specDirs[prio]\n",
+  "\tprio := len(c.specDirs) - 1\n\tif prio > 1 {\n\t\tprio = 1\n\t}\n\tdir := c.specDirs[prio]\n")], "with three or more directories the second one is used")
+m("C16-newspec-ext-upper", "C16", [(SPEC,
+  "\tif ext := filepath.Ext(spec.path); ext != \".yaml\" && ext != \".json\" {\n\t\tspec.path += defaultSpecExt\n\t}",
+  "\tif ext := strings.ToLower(filepath.Ext(spec.path)); ext != \".yaml\" && ext != \".json\" {\n\t\tspec.path += defaultSpecExt\n\t}")], "newSpec keeps .YAML although WriteSpec/RemoveSpec/scanner treat it as no extension")
+m("C16-name-for-spec-class-only", "C16", [(SPEC,
+  "\tvendor, class := parser.ParseQualifier(raw.Kind)\n\tif vendor == \"\" {\n\t\treturn \"\", fmt.Errorf(\"invalid vendor/class %q in Spec\", raw.Kind)\n\t}\n\n\treturn GenerateSpecName(vendor, class), nil",
+  "\tvendor, class := parser.ParseQualifier(raw.Kind)\n\n\treturn GenerateSpecName(vendor, class), nil")], "unqualified kind yields the name '-kind' instead of an error")
+
 
 def emit():
     os.makedirs(os.path.join(VERIF, "mutants"), exist_ok=True)
